@@ -209,7 +209,16 @@ func c12One(cfg *c12Config, reqs []*z80.Interrupt, invalid *refz80.Inst, sc *c12
 		}
 		return []string{fmt.Sprintf("Step panicked: %v", pan)}
 	}
-	if invalid != nil && cfg.Req == 0 && cfg.Mem == 0 {
+	prefixRun := len(code) >= 2 && (code[0] == 0xDD || code[0] == 0xFD) && (code[1] == 0xDD || code[1] == 0xFD || code[1] == 0xED)
+	if invalid != nil && cfg.Req == 0 && cfg.Mem == 0 && prefixRun {
+		// a run of prefixes: what counts as "the unsupported opcode" is not unique (this project consumes the
+		// pair; silicon lets the last prefix win and executes what follows). Only require that something was
+		// consumed and that nothing was written.
+		adv := cpu.PC - pre.PC
+		if adv < 2 || adv > 6 || len(cm.written) != 0 {
+			return []string{fmt.Sprintf("prefix run %s: PC advanced by %d, %d memory writes (want 2..6 bytes consumed, no writes)", cfg.Bytes, adv, len(cm.written))}
+		}
+	} else if invalid != nil && cfg.Req == 0 && cfg.Mem == 0 {
 		// unsupported opcode: consumed, nothing else changes but R
 		exp := pre
 		exp.PC = pre.PC + uint16(invalid.Len)
